@@ -199,6 +199,13 @@ namespace hv
         std::map<std::string, PortVal>                           env;
         std::map<std::string, stdlib::FeedbackWiringPort<TS<Int>>> fbs;
         std::map<std::string, DelayedBindingWiringPort<TS<Int>>>  delayed;
+        struct FbAny
+        {
+            std::function<WiringPortRef()>     get;
+            std::function<void(WiringPortRef)> bind;
+            std::string                        shape;
+        };
+        std::map<std::string, FbAny> cfbs;      // feedbacks over collection shapes
 
         PortVal get(const std::string &name0)
         {
@@ -207,6 +214,7 @@ namespace hv
             if (!name.empty() && name[0] == '~') { pas = true; name = name.substr(1); }
             PortVal v;
             if (auto f = fbs.find(name); f != fbs.end()) v = PortVal{f->second().erased(), PT::Int};
+            else if (auto cf = cfbs.find(name); cf != cfbs.end()) v = PortVal{cf->second.get(), PT::Other, cf->second.shape};
             else if (auto d = delayed.find(name); d != delayed.end()) v = PortVal{d->second().erased(), PT::Int};
             else
             {
@@ -244,6 +252,7 @@ namespace hv
             if (s.op == "gs") { put(s.dst, wire<VGs>(w, pi(a.at(0)), uid)); return; }
             if (s.op == "acc") { put(s.dst, wire<VAcc>(w, pi(a.at(0)), uid)); return; }
             if (s.op == "count") { put(s.dst, wire<VCount>(w, pi(a.at(0)), uid)); return; }
+            if (s.op == "sample3") { put(s.dst, wire<VSample3>(w, pi(a.at(0)), pi(a.at(1)), pi(a.at(2)), uid)); return; }
             if (s.op == "sample") { put(s.dst, wire<VSample>(w, pi(a.at(0)), pi(a.at(1)), uid)); return; }
             if (s.op == "gate") { put(s.dst, wire<VGate>(w, pi(a.at(0)), pi(a.at(1)), uid)); return; }
             if (s.op == "halfgate") { put(s.dst, wire<VHalfGate>(w, pi(a.at(0)), pi(a.at(1)), uid)); return; }
@@ -266,7 +275,12 @@ namespace hv
                 else fbs.emplace(s.dst, stdlib::feedback<TS<Int>>(w));
                 return;
             }
-            if (s.op == "bind") { fbs.at(a.at(0))(pi(a.at(1))); return; }
+            if (s.op == "bind")
+            {
+                if (auto cf = cfbs.find(a.at(0)); cf != cfbs.end()) { cf->second.bind(get(a.at(1)).ref); return; }
+                fbs.at(a.at(0))(pi(a.at(1)));
+                return;
+            }
             if (s.op == "delayed") { delayed.emplace(s.dst, delayed_binding<TS<Int>>(w)); return; }
             if (s.op == "bindd") { delayed.at(a.at(0))(pi(a.at(1))); return; }
             if (s.op == "rank")
